@@ -134,6 +134,24 @@ func init() {
 		}
 		return Val{T: cc.resT, Term: v}
 	}
+	// errors.As(err, &target) for *hooks.TooManyRequestError: classification predicate + non-nil target on success
+	specTable["errors.As"] = func(e *Exec, cc *callCtx) Val {
+		res := e.define(cc.f.prefix+"errorsAs", "Bool", e.errPred("isTMR", cc.args[0].Term))
+		tgt := cc.args[1]
+		if pt, ok := e.boxType[tgt.Term]; ok {
+			if inner := deref(pt); inner != nil && isRefLike(inner) {
+				r := e.boxOf[tgt.Term]
+				n, so := e.heapName(inner)
+				h := e.comp(cc.st, n, so)
+				fr := e.freshRef(cc.st, "astarget")
+				e.setComp(cc.st, n, so, Ite(res, Store(h, r, fr), h))
+			}
+		}
+		return Val{T: cc.resT, Term: res}
+	}
+	specFuncs["isTMR"] = func(e *Exec, env *Env, args []Val) (Val, error) {
+		return Val{T: tBool, Term: e.errPred("isTMR", args[0].Term)}, nil
+	}
 	specTable["errors.New"] = func(e *Exec, cc *callCtx) Val {
 		v := e.fresh(cc.f.prefix+"errnew", "Any")
 		e.assume(Not(Eq(v, "nil_any")), "errors.New returns a non-nil error")
@@ -219,6 +237,18 @@ func init() {
 		}
 		c, _ := e.omComp(env.cur, "OM_owners_arr", "(Array Int "+e.reg.sortOf(t)+")")
 		return Val{T: t, Term: Select(Select(c, e.refOfVal(args[0])), args[1].Term)}, nil
+	}
+	// work queues: Get returns something that was added; every Add site in the repository adds a string
+	// key (obligations effect@Add* of the enqueue functions), so items are strings
+	for _, m := range []string{"Get"} {
+		for _, iface := range []string{"TypedRateLimitingInterface[any]", "TypedInterface[any]", "TypedDelayingInterface[any]"} {
+			specTable[fmt.Sprintf("(k8s.io/client-go/util/workqueue.%s).%s", iface, m)] = func(e *Exec, cc *callCtx) Val {
+				v := e.havocVal(cc.resT, cc.f.prefix+"queueGet")
+				ok, _ := e.reg.unbox(tString, v.Tup[0].Term)
+				e.assume(Implies(Not(v.Tup[1].Term), ok), "queue items are the string keys that were added")
+				return v
+			}
+		}
 	}
 	specFuncs["riNamespace"] = func(e *Exec, env *Env, args []Val) (Val, error) {
 		e.declFun("ri_ns", []string{"Any"}, "String")
